@@ -445,6 +445,13 @@ impl NodeExec {
             ["drain"] | ["drain", _, _] => {
                 outs = self.drain();
             }
+            ["assert-empty"] => {
+                // C13: after every query is resolved / cancelled and every peer is gone, nothing is retained
+                let st = self.state();
+                let rest = st.split_once('|').map(|x| x.1).unwrap_or("");
+                let want_empty = st.starts_with("W=@");
+                return if want_empty && rest == "P=|Q=|A=|T=0|NB=0|S=|Wt=|O=|ST=0" { "empty".into() } else { format!("retained:{st}") };
+            }
             _ => return "bad-op".into(),
         }
         format!("{}{} ## {}", pre, outs.join(" "), self.state())
